@@ -2,6 +2,7 @@ package vchain
 
 import (
 	"github.com/nspcc-dev/neo-go/pkg/config"
+	"github.com/nspcc-dev/neo-go/pkg/core/block"
 	"github.com/nspcc-dev/neo-go/pkg/core/transaction"
 	"github.com/nspcc-dev/neo-go/pkg/neotest"
 	"github.com/nspcc-dev/neo-go/verifharness/vlib/rng"
@@ -32,6 +33,7 @@ type HistoryCfg struct {
 	Keep    bool
 	Weights *Weights
 	NoQuiet bool
+	OnBlock func(p *Producer, b *block.Block)
 }
 
 // ProtoFor returns the protocol variant used for history idx.
@@ -66,6 +68,7 @@ func BuildHistory(t testing.TB, hc HistoryCfg) *History {
 	}
 	pc.TolerateReject = true
 	h.P = NewProducer(t, pc)
+	h.P.OnBlock = hc.OnBlock
 	if h.P.Rejected != nil {
 		return h
 	}
